@@ -13,6 +13,18 @@ CLAIMED = {
          "<= 2-3 events per stream; array-backed stream stand-in; echs_instant_add replaced by a model proven equal on the harness domain; known finding C02-2 (overlap drops unnamed occurrence) excluded by assumption and re-confirmed each run.", "symbolic streams + inductive add-model lemma", "6 C02"),
  'C03': ("next_evmux/echs_evstrm_vmux on symbolic constituents (ties, cross-stream duplicates) and arbitrary peek/pop interleavings: order, completeness, duplicate collapse, end-of-stream, peek purity, no use after free.",
          "<= 3 constituents x <= 2-3 events; array-backed constituents; indirect calls restricted to them; typed static allocator except in the *_realmalloc obligation.", "symbolic k-way merge histories", "6 C03"),
+ 'C05': ("Token-level round trip: send_rrul/send_task run with the writer replaced by recorders; the recorded keys and integers are read back through the real keyword tables, snarf_fld and make_task and must rebuild the same rule parts / numeric task fields for every admitted value.",
+         "BY-lists of 2 values, three BY-parts per query; character-level text round trip, TZID/SCALE/EXDATE serialisation and stream position are outside (position: C16).", "recorder-as-reader over the real serialiser", "6 C05"),
+ 'C09': ("The fillers called as refill() calls them with bounds/pointer checks on the real cache buffer (cache 4 via hook): overshoot shapes, the maximal BYHOUR/BYSECOND lists, and empty recurrence sets that must end the stream within the unwinding bound (a failed unwinding assertion is replayed natively under a time limit).",
+         "cache 4 instead of 64; termination obligations start near the end of the supported range; sparse-shape memory safety rides on C01's obligations.", "bounds checks + unwinding assertions as termination obligations", "6 C09"),
+ 'C12': ("task_cb/chld_cb/run_task with symbolic limits under symbolic schedules of timer expiries and child exits; the harness keeps the ground truth of really running executions.",
+         "1-2 tasks, 3-4 events quick (6 thorough), limits <= 3 or unset; libev/spawn stand-ins; child-watcher pool replaced by a separate-objects allocator.", "symbolic event schedules against a ground-truth counter", "6 C12"),
+ 'C13': ("prep_task() over all 32 output configurations with descriptors tagged by the object they refer to; the sinks reached by fd 1 / fd 2 through the plan are compared with the README table; working directory and stdin likewise.",
+         "descriptor plan only: real process execution, pipe capacity, partial splice/sendfile, exit status/signals, sendmail and the journal need a running child and kernel and are outside.", "tagged-descriptor data-flow model of the real plan", "6 C13"),
+ 'C14': ("The limit L (1 s .. 30 d) is a solver variable at every hop: vtodoify() DURATION line, idiff_strp of PT<n>S, make_task() classification, echsx() argument of alarm() for TIMEOUT and DUE requests.",
+         "signal delivery and the kill itself are outside; stand-ins for alarm/time/setuid/sigaction; DTEND->duration is C08's diff.", "per-hop conversion obligations", "6 C14"),
+ 'C16': ("refill()/next_evrrul() with the cache reduced to 2-4 (hook) so that pops cross refill boundaries: strictly increasing, >= DTSTART, <= UNTIL, <= COUNT, peek purity, and restart consistency against one long direct fill.",
+         "3 pops over a cache of 2 in the quick tier (5 pops over 4 thorough); UTC Gregorian streams; SHIFT/monthly/yearly shapes thorough-tier only.", "stream-vs-direct-fill equivalence", "6 C16"),
  'C07': ("The zone itself is symbolic (transitions, type map, offsets): cached and uncached offset lookup equal a linear-scan oracle and terminate; local<->UTC round trips hold for unambiguous local times.",
          "<= 3-5 transitions per zone, offsets within +-18 h, consecutive transitions >= 48 h apart for the round trip (checked against the installed zoneinfo by setup); zoneinfo file parsing and the refill() correction loop are outside.", "symbolic time zone", "6 C07"),
  'C08': ("echs_instant_diff/add/fixup, ordering predicates and both library epoch conversions compared with an independent calendar oracle for every instant of 1901-2099; the add/diff round trip is decomposed into lemmas each decided by a solver.",
